@@ -213,6 +213,11 @@ async def scenario(part, r, backend, outputs):
         n_msgs = r.randint(2, 5)
         for _ in range(n_msgs):
             msg = hostile_message(r)
+            if r.random() < 0.15:
+                # nested as deep as, and deeper than, the MIME parser follows (100 levels): what is written about the parts around that depth is still a response
+                msg = b'A: b\r\n\r\nleaf\r\n'
+                for _ in range(r.choice([98, 99, 100, 101, 130])):
+                    msg = b'Content-Type: message/rfc822\r\n\r\n' + msg
             kws = b' '.join(r.sample(KEYWORDS, r.randint(0, 3)))
             # now and then with a date-time: the ends of the calendar, short years, zones with seconds (refused or not, what comes back is a date-time)
             when = b''
@@ -225,6 +230,9 @@ async def scenario(part, r, backend, outputs):
         for attr in r.sample(FETCH_ATTRS, 10):
             await cmd(b'FETCH 1:* (' + attr + b')', 'fetch:' + attr.split(b'[')[0].split(b'.')[0].decode())
         await cmd(b'FETCH 1:* FULL', 'fetch:FULL')
+        for depth_ in (98, 99, 100, 101):
+            path = b'.'.join([b'1'] * depth_)
+            await cmd(b'FETCH 1:* (BODY.PEEK[' + path + b'.HEADER] BODY.PEEK[' + path + b'.TEXT] BODY.PEEK[' + path + b'.MIME])', 'fetch:deep-part')
         await cmd(b'UID FETCH 1:* (ENVELOPE BODYSTRUCTURE)', 'fetch:ENVELOPE')
         await cmd(b'STORE 1:* +FLAGS (' + b' '.join(r.sample(KEYWORDS, 2)) + b' \\Deleted)', 'store')
         await cmd(b'SEARCH OR SUBJECT "a" NOT FROM "b"', 'search')
